@@ -47,7 +47,7 @@ func init() {
 		Rule: "pairs of root containers A, B over a shared 6-key pool (B independent, or A after 1-4 local edits: key added/removed, leaf changed, kind swapped, list grown/shrunk/permuted), nulls with probability 0.2, lists of containers and lists of lists, both list strategies, B optionally sealed; overlay cases add 2-4 such documents as layers and read Merged(opts); heap-merge cases build A and B (or 1-3 overlay layers) in one of seven ways (FromMap, AddValue/ListNode with own or shared nil leaves, AddContainer/AddList/Set/Append, subtrees shared inside and between the documents, containers with an add-and-remove history), encode the real object graph as an explicit heap by pointer identity, Merge / Merged, and compare the result's sharing map (which result node is which input object / a new object) with the heap model, snapshot the inputs pointer for pointer, then write in place to the merged containers of the result; config cases send defaults plus 1-3 override sources (YAML file, JSON file, map, dom container) through fluent.ConfigHelper. A case is non-trivial when the two sides (some two layers / sources) share at least one key; distinct = distinct canonical case JSON (hash).",
 		Assumptions: []string{
 			"scalars are NaN-free and -0-free; a leaf is null iff its Go value is nil (wire scalar {nil,<nil>})",
-			"keys come from a path-safe pool (no key ends in an index group: the API invariant discussed under D26)",
+			"keys are arbitrary strings (a path-safe pool, and a second pool with dots, slashes, spaces, '~', brackets, non-ASCII text and the empty key); no key ends in an index group `[digits]`: the API invariant discussed under D26",
 			"ConfigHelper.Result() passes through a yaml.v3 encode/decode round trip; expected values are normalised through the same round trip (external library, contract validated by correspondence only)",
 			"heap tie: a node object is identified by the address its pointer holds (a sealed view and its builder are one object), a children map by the address of its header (Children() returns the map itself); item slices are not observable by identity and are covered by the in-place write probes; the overlay's internal layer roots are not reachable through the API, the given layer documents stand for them (same members)",
 		}})
@@ -114,6 +114,7 @@ func c04Run(c *Ctx) {
 	}
 	// pointer level: the real object graph against the heap model's sharing map (heap_share.go)
 	heapMergeGen(c, g, second, opt, c.N(900))
+	c04RunKeys(c, opt) // c04_keys.go: the same three routes over keys that are arbitrary strings
 	if c.Thorough() && !c.searchMode {
 		all := c04EnumDocs()
 		c.Note("exhaustive scope: %d root containers of size <= 4 over keys {a,b}; all ordered pairs x both strategies", len(all))
@@ -384,6 +385,8 @@ func c04Eval(c *Ctx, kind string, raw []byte) {
 		c.Direct("self-merge-meld-identity", canon(self) == canon(p.A) && eqSelf, self)
 		c.Corr("merge", rw, c.Model("merge", map[string]any{"a": p.A, "b": p.B, "opt": p.Opt}))
 		c.Corr("merge(AsMap)", rmap, c.Model("merge", map[string]any{"a": am0, "b": bm0, "opt": p.Opt}))
+	case "pair-frommap":
+		c04EvalFromMap(c, raw) // c04_keys.go
 	case "overlay":
 		var p c04Overlay
 		if err := json.Unmarshal(raw, &p); err != nil {
